@@ -510,7 +510,7 @@ func c11RunScenario(s c11Scenario, slack time.Duration) (o c11Outcome) {
 			_ = p.conn.Close()
 		}
 		pmu.Unlock()
-		ln.wg.Wait()
+		ln.waitPeers()
 	}()
 	// attempt numbering: without cold start, attempt 0 is the generation that fails, 1..Fails are refused,
 	// Fails+1 is served. With cold start attempts 0..Fails-1 are refused and attempt Fails is served.
